@@ -327,6 +327,23 @@ structure Cfg where
       request (`renewIdentityCertificate` → `Authority.Renew`) -/
   identity : Bool := false
 
+/-- certificate type of a webhook controller (what the request issues) / `certType` attribute of
+    a webhook definition; `unset` = the attribute is not written (hand-written ca.json) -/
+inductive CertT where
+  | all | x509 | ssh | unset
+  deriving DecidableEq, Repr
+
+/-- `WebhookController.isCertTypeOK`: is this webhook consulted for this kind of certificate? -/
+def certTypeOK (ctl wh : CertT) : Bool :=
+  if ctl = .all then true
+  else if wh = .all ∨ wh = .unset then true
+  else ctl = wh
+
+/-- the webhooks of the provisioner that are consulted for a request of type `ctl` when all of
+    them are written with `certType = wh` -/
+def Cfg.consulted (c : Cfg) (ctl wh : CertT) : Cfg :=
+  if certTypeOK ctl wh then c else { c with e := 0, a := 0 }
+
 /-- `authorizeToken`: the token is recorded (`UseToken`) … -/
 def authorizeTokenSteps : List Kind := [.useToken]
 /-- … before `authorizeSign` / `authorizeRevoke` / `authorizeSSH*` validate it
@@ -512,6 +529,18 @@ def callerTable (c : Cfg) : List (String × String × Op × List Kind) :=
    ("renewIdentityCertificate", "Renew", .sshRenew, renewContextSteps),
    ("Finalize", "SignWithContext", .acmeFinalize, signX509Steps c),
    ("SignCSR", "SignWithContext", .scepEnroll, signX509Steps c)]
+
+/-- Which store each record-keeping function of package `authority` consults, in source order
+    (linked CA first when it implements the method, then the local database).  The nosql admin
+    store that `authority.enableAdmin` puts into `adminDB` implements none of these methods
+    (`adminStoreMethods`), so with it the local database keeps all records: the model has no
+    case distinction for `enableAdmin`. -/
+def storerOrder : List (String × List String) :=
+  [("storeCertificate", ["a.adminDB", "a.db"]), ("storeRenewedCertificate", ["a.adminDB", "a.db"]),
+   ("storeSSHCertificate", ["a.adminDB", "a.db"]), ("storeRenewedSSHCertificate", ["a.adminDB", "a.db"]),
+   ("revoke", ["a.adminDB", "a.db"]), ("revokeSSH", ["a.adminDB", "a.db"]),
+   ("IsRevoked", ["a.adminDB", "a.db"]), ("authorizeSSHCertificate", ["a.adminDB", "a.db"])]
+def adminStoreMethods : List String := []
 
 /-- SCEP message types for which `PKIOperation` validates the challenge, and those
     `DecryptPKIEnvelope` treats as carrying a certificate request -/
